@@ -101,6 +101,10 @@ type StoredData struct {
 }
 
 func (tps *TPS) ClassifyMsg(msgBytes []byte) (uint8, bool, error) {
+	if len(msgBytes) == 0 {
+		return 0, false, fmt.Errorf("empty message")
+	}
+
 	switch msgBytes[0] {
 	case shareDistribution:
 		return shareDistribution, false, nil
@@ -197,6 +201,11 @@ func (tps *TPS) ThresholdPK() ([]byte, error) {
 }
 
 func (tps *TPS) OnMsg(msgBytes []byte, from uint16, _ bool) {
+	if len(msgBytes) == 0 {
+		tps.Logger.Warnf("Got an empty message from %d", from)
+		return
+	}
+
 	tps.lock.Lock()
 	defer tps.lock.Unlock()
 
